@@ -96,6 +96,21 @@ def run_history(cell):
     if cell.get('bounce_queue', 'separate') == 'separate':
         recq = RecQueue()
         kw['bounce_queue'] = recq
+    bq = None
+    got2 = []
+    if cell.get('bounce_queue') == 'queue':
+        # a real Queue object as the separate bounce queue, constructed (as
+        # applications do) before anything is started
+        from slimta.queue.dict import DictStorage
+        bq = Queue(DictStorage(), qc.ScriptRelay(
+            lambda rec: (qc.Outcome.OK, None)))
+        orig2 = bq.enqueue
+
+        def enqueue2(envelope):
+            got2.append(envelope)
+            return orig2(envelope)
+        bq.enqueue = enqueue2
+        kw['bounce_queue'] = bq
     if cell.get('pools'):
         kw['store_pool'] = 2
         kw['relay_pool'] = 1
@@ -120,7 +135,7 @@ def run_history(cell):
             return orig_write(envelope, timestamp)
         store.write = write
     enq = []
-    if recq is None:
+    if recq is None and bq is None:
         orig = queue.enqueue
 
         def enqueue(envelope):
@@ -128,6 +143,8 @@ def run_history(cell):
             return orig(envelope)
         queue.enqueue = enqueue
     queue.start()
+    if bq is not None:
+        bq.start()
     qc.run_until_quiescent()
     env = qc.make_envelope('m1', sender, RCPTS[:n],
                            body=b'caf\xc3\xa9 \xff body\r\n.\r\n')
@@ -141,8 +158,10 @@ def run_history(cell):
     g = gevent.spawn(lister)
     qc.run_until_quiescent()
     queue.kill()
-    bounces = list(recq.got) if recq is not None else \
-        [e for e in enq if e is not env]
+    if bq is not None:
+        bq.kill()
+    bounces = list(recq.got) if recq is not None else (
+        list(got2) if bq is not None else [e for e in enq if e is not env])
     return {'relay': relay, 'factory_calls': factory_calls,
             'bounces': bounces, 'stored': stored, 'qid': qid, 'result': res,
             'errors': list(qc.ERRORS), 'sender': sender, 'env': env,
